@@ -668,9 +668,10 @@ def judge_run(rec, info, o, fe):
         if MECH_MP in lens_flags:
             cands.append((o['m0'], (MECH_MP,)))
         vx = o.get('value_at_returned_x')
-        if lens_ok and not o['returned_point_evaluated'] and vx is not None and not o['success']:
-            # scipy (L-BFGS-B after an abnormal line search) handed back x of one logged evaluation with the fun of
-            # another; on a lens that IS at result.x the merit equals the value logged at result.x
+        if lens_ok and not o['returned_point_evaluated'] and vx is not None and (not o['success'] or o['returned_fun_is_logged_value']):
+            # scipy (L-BFGS-B after an abnormal line search - also as the local search inside dual_annealing, whose
+            # result then reports success) handed back x of one logged evaluation with the fun of another logged
+            # evaluation; on a lens that IS at result.x the merit equals the value logged at result.x
             cands.append((vx, (MECH_PAIR,)))
         alt, flags2 = pick(rec, o['merit_after'], cands, 1e-9, oscale)
         rec.close('objective-reproduced', o['merit_after'], o['fun'], 1e-9, key='objective-reproduced:unexplained',
